@@ -1,6 +1,7 @@
 import SaModel.Lemmas.C01ObsComp
 import SaModel.Props.C01Complete
 import SaModel.Props.C01Obs
+import SaModel.Lemmas.C03ObsTotal
 /-
 C01, completeness of the builders with respect to the documented mapping (the converse of R2') WITHOUT the first clause
 of `Safe`: the statements of Props/C01Complete.lean under the weak state invariant `WFH` and `NoDictKey` (which holds of
@@ -139,5 +140,50 @@ example : ∃ b', push {} exUnsafeAfter1
         .ok (.struct (.cons "s" (.struct (.cons "d" (.str [97]) .nil)) .nil)) from by decide +kernel)
     hw hn hsh (by decide) (by decide) (by unfold NoCap; decide +kernel)
   exact ⟨b', h⟩
+
+/-- **`to_marrow` is complete, no `Safe`**: if every record is representable under the root schema and the records fit
+into the fresh root's head room, `to_marrow` succeeds — every row is accepted (`runRows_complete'`) and `build_arrays`
+cannot fail (`Lemmas.C03.finish_totalH`: on the weak invariant the placeholder branch of `DictionaryUtf8Builder::into_array`
+is LIVE — keys hidden below a null while the dictionary is empty — and `serialize_str("")` into the value builder succeeds
+because `coveredF` makes it a Utf8 / LargeUtf8 builder; for a Binary value builder it would fail:
+`Lemmas.C03.placeholder_binary_fails`). -/
+theorem toMarrow_complete' (ext : Ext) (fields : List Field) (rows : List SVal) (root0 : B)
+    (hc : fields.all coveredF = true) (h0 : newRoot fields = .ok root0)
+    (htot : totalFs (Fields.ofList fields) = true)
+    (htyped : Lemmas.C03.typedFs (Fields.ofList fields) = true)
+    (hrows : ∀ r ∈ rows, noRaw r = true ∧ ∃ lv, interpRow ext fields r = .ok lv)
+    (hcap : (rows.map (vsize ext)).sum ≤ room root0) : ∃ arrs, toMarrow ext fields rows = .ok arrs := by
+  obtain ⟨root, hrun⟩ := runRows_complete' ext fields rows root0 hc h0 htot hrows hcap
+  obtain ⟨hw, _⟩ := runRows_rows' ext fields rows root0 root h0 hrun
+  exact Lemmas.C03.toMarrow_totalH ext fields rows root hc htyped hw hrun
+
+/-- … and then the arrays are what C01 says (`C01_build_decode'`), no `Safe` -/
+theorem toMarrow_complete_decode' (ext : Ext) (fields : List Field) (rows : List SVal) (root0 : B)
+    (hschema : ∀ f ∈ fields, Lemmas.C03.SchemaOKF f)
+    (hc : fields.all coveredF = true) (h0 : newRoot fields = .ok root0)
+    (htot : totalFs (Fields.ofList fields) = true)
+    (htyped : Lemmas.C03.typedFs (Fields.ofList fields) = true)
+    (hrows : ∀ r ∈ rows, noRaw r = true ∧ ∃ lv, interpRow ext fields r = .ok lv)
+    (hcap : (rows.map (vsize ext)).sum ≤ room root0) :
+    ∃ arrs, toMarrow ext fields rows = .ok arrs ∧ arrs.length = fields.length ∧
+      ∃ cols : List (String × List LVal),
+        arrs.map decodeAll = cols.map (fun c => c.2.map .ok) ∧ cols.map (·.1) = fields.map (·.name) ∧
+        (∀ c ∈ cols, c.2.length = rows.length) ∧
+        ∀ (i : Nat) (hi : i < rows.length),
+          interpRow ext fields rows[i] = .ok (.struct (LFields.ofList (cols.map fun c => (c.1, c.2.getD i .null)))) := by
+  obtain ⟨arrs, h⟩ := toMarrow_complete' ext fields rows root0 hc h0 htot htyped hrows hcap
+  exact ⟨arrs, h, C01_build_decode' ext fields rows arrs hschema hc (fun x hx => noRaw_ssa x (hrows x hx).1)
+    (Or.inl fun x hx => (hrows x hx).1) h⟩
+
+/-- non-vacuity: `toMarrow_complete'` on the schema OUTSIDE `Safe` with the three records `None, {d: "a"}, None` -/
+example : ∃ arrs, toMarrow {} exUnsafeFields exUnsafeRows = .ok arrs := by
+  refine toMarrow_complete' {} exUnsafeFields exUnsafeRows exUnsafeNewRoot (by decide) exUnsafeNewRoot_eq (by decide) (by decide) ?_
+    (by decide +kernel)
+  intro r hr
+  simp only [exUnsafeRows, List.mem_cons, List.not_mem_nil, or_false] at hr
+  rcases hr with rfl | rfl | rfl
+  · exact ⟨by decide, ok_of_isOk (by decide +kernel)⟩
+  · exact ⟨by decide, ok_of_isOk (by decide +kernel)⟩
+  · exact ⟨by decide, ok_of_isOk (by decide +kernel)⟩
 
 end SaModel.Props.C01
